@@ -1,12 +1,12 @@
 package rules
 
 import (
-	"unicode/utf8"
 	"fmt"
 	"go/token"
 	"go/types"
 	"sort"
 	"strings"
+	"unicode/utf8"
 
 	"golang.org/x/tools/go/ssa"
 
@@ -1988,7 +1988,7 @@ func foreignStatusSource(v ssa.Value, depth int) string {
 		}
 		ci := core.InfoOf(&call.Call)
 		switch {
-		case ci.Is(statusPkg+".FromError"), ci.Is(statusPkg+".Convert"), ci.Is(statusPkg+".FromProto"), ci.Is(statusPkg+".New"), ci.Is(statusPkg+".Newf"), ci.Is(statusPkg+".FromContextError"):
+		case ci.Is(statusPkg + ".FromError"), ci.Is(statusPkg + ".Convert"), ci.Is(statusPkg + ".FromProto"), ci.Is(statusPkg + ".New"), ci.Is(statusPkg + ".Newf"), ci.Is(statusPkg + ".FromContextError"):
 		case ci.Static != nil && ci.Static.Blocks != nil && strings.HasPrefix(ci.Pkg, core.ModulePath):
 			for _, r := range core.Returns(ci.Static) {
 				if idx < len(r.Results) {
